@@ -101,6 +101,11 @@ def msg_from_val(v):
         m.hashstop = v[3]
     elif c == 9:
         m.headers = [header_from_val(h) for h in v[1]]
+        # a list of headers may hold blocks (CBlock is a CBlockHeader): what is framed is their header
+        if len(v[1]) % 2 == 1:
+            from .C02 import make_block
+            m.headers = [make_block(h, [tx_from_val([1, [[b'\x07' * 32, k, b'\x51', 0]], [[5, b'\x51']], [], 0])]) if k % 2 == 0 else header_from_val(h)
+                         for k, h in enumerate(v[1])]
     elif c == 10:
         m.tx = tx_from_val(v[1])
     elif c == 11:
